@@ -226,7 +226,8 @@ def run(ctx):
     cmd_world = [('Candle', 'g', 'l', ('matrix', 5, 6)), ('Strip', 'g', 'l', ('multi', 8)), ('Top', 'h', 'l', ('plain',))]
     for action in ('set', 'on', 'off'):
         for target in ('"Candle"', '"Strip"', '"Top"', '"nobody"', 'group "g"', 'location "l"', 'all'):
-            for suffix in ('', ' zone 1', ' zone 1 2', ' row 1', ' column 1', ' row 1 2 column 0 1', ' begin stage row 1 end', ' and "Top"', ' row 1 and "Top" column 0'):
+            for suffix in ('', ' zone 1', ' zone 1 2', ' row 1', ' column 1', ' row 1 2 column 0 1', ' begin stage row 1 end', ' and "Top"', ' row 1 and "Top" column 0',
+                           ' begin end', ' begin stage row 1 on "Top" end', ' begin off "Top" stage column 0 end and "Top"', ' begin stage row 1 set "Strip" zone 1 end'):
                 t = 'hue 120 %s %s%s' % (action, target, suffix)
                 o = observe(t)
                 ctx.count()
